@@ -12,9 +12,28 @@ import (
 )
 
 const ghBuf = "#buf" // ghost: contents of a *bytes.Buffer as an abstract string
+const ghRd = "#rd"   // ghost: remaining contents of a reader created by the library
 
 func init() {
 	heapSorts[ghBuf] = ArrSort(SInt, SStr)
+	heapSorts[ghRd] = ArrSort(SInt, SStr)
+}
+
+func (x *Exec) rdSet(st *State, r, v *Term) {
+	st.heap[ghRd] = Store(st.heapArr(ghRd, heapSorts[ghRd]), r, v)
+}
+
+// readerContent: contents of an io.Reader interface value: a *bytes.Buffer reads its ghost
+// buffer, a reader made by strings.NewReader / io.MultiReader its ghost remaining contents.
+func (x *Exec) readerContent(st *State, iface *Term) *Term {
+	bufT := x.P.lookupNamedType("bytes", "Buffer")
+	rd := Select(st.heapArr(ghRd, heapSorts[ghRd]), iface)
+	if bufT == nil {
+		return rd
+	}
+	tag := IntLit(int64(x.P.typeTag(types.NewPointer(bufT))))
+	theU.DeclFunc("unbox!Int", SInt, SInt)
+	return Ite(Eq(App("typeof", SInt, iface), tag), x.bufGet(st, App("unbox!Int", SInt, iface)), rd)
 }
 
 // externalMods: heap keys an external function may write (for mod-set inference).
@@ -32,7 +51,14 @@ func externalMods(callee *ssa.Function, c *ssa.CallCommon) []string {
 	case n == "sort.Sort", n == "sort.Stable":
 		return []string{modAll}
 	case n == "io.Copy", n == "io.CopyN", n == "io.CopyBuffer":
-		return []string{ghBuf}
+		if len(c.Args) > 0 {
+			if g, ok := c.Args[0].(*ssa.UnOp); ok {
+				if gl, ok := g.X.(*ssa.Global); ok && gl.String() == "io.Discard" {
+					return []string{ghRd}
+				}
+			}
+		}
+		return []string{ghBuf, ghRd}
 	case strings.HasPrefix(n, "fmt.Fprint"):
 		return []string{ghBuf}
 	}
@@ -173,13 +199,31 @@ func (x *Exec) external(st *State, site ssa.Instruction, callee *ssa.Function, c
 		x.bufSet(st, b, rest)
 		x.setResult(st, res, Val{Tup: []Val{{T: nn}, {T: e}}})
 		return true
+	case "io.WriteString":
+		x.writeModel(st, at(0), at(1), res)
+		return true
 	case "strings.NewReader", "bytes.NewReader":
 		r := x.newRef(st, "reader")
+		x.rdSet(st, r, at(0))
 		x.setResult(st, res, Val{T: r})
 		return true
 	case "io.MultiReader":
-		r := x.freshVar("multireader", SInt)
-		st.add(Gt(r, Zero))
+		// the contents are the concatenation of the readers' contents (when the argument slice
+		// has a literal length, as in every call of the library)
+		r := x.newRef(st, "multireader")
+		sl := at(0)
+		var total *Term = strEmpty
+		if n, ok := sliceAcc(sl, 2).IntVal(); ok && n.IsInt64() && n.Int64() <= 8 {
+			ek := x.elemKey(types.NewInterfaceType(nil, nil))
+			arr := Select(st.heapArr(ek, heapSorts[ek]), sliceAcc(sl, 0))
+			for i := int64(0); i < n.Int64(); i++ {
+				total = x.concat(st, total, x.readerContent(st, Select(arr, Add(sliceAcc(sl, 1), IntLit(i)))))
+			}
+		} else {
+			total = x.freshVar("multi", SStr)
+			x.strFacts(st, total)
+		}
+		x.rdSet(st, r, total)
 		x.setResult(st, res, Val{T: r})
 		return true
 	case "io.NopCloser":
@@ -210,6 +254,10 @@ func (x *Exec) external(st *State, site ssa.Instruction, callee *ssa.Function, c
 	case "time.Since", "(time.Time).Sub":
 		r := x.freshVar("dur", SInt)
 		st.add(rangeFacts(r, types.Typ[types.Int64])...)
+		if n == "time.Since" {
+			// documented domain: the start time lies strictly in the past
+			st.add(Gt(r, Zero))
+		}
 		x.setResult(st, res, Val{T: r})
 		return true
 	case "(time.Duration).Seconds", "(time.Duration).Minutes", "(time.Duration).Hours":
@@ -256,7 +304,14 @@ func (x *Exec) external(st *State, site ssa.Instruction, callee *ssa.Function, c
 		nn := x.freshVar("n", SInt)
 		st.add(Ge(nn, Zero))
 		x.setResult(st, res, Val{Tup: []Val{{T: nn}, {T: x.errResult(st)}}})
-		x.havoc(st, map[string]bool{ghBuf: true})
+		if g, ok := c.Args[0].(*ssa.UnOp); ok {
+			if gl, ok := g.X.(*ssa.Global); ok && gl.String() == "io.Discard" {
+				// draining a reader into io.Discard: the reader ends empty, nothing else changes
+				x.rdSet(st, at(1), strEmpty)
+				return true
+			}
+		}
+		x.havoc(st, map[string]bool{ghBuf: true, ghRd: true})
 		return true
 	}
 	delete(x.extUsed, n)
@@ -284,6 +339,12 @@ func (x *Exec) externalIface(st *State, site ssa.Instruction, c *ssa.CallCommon,
 		r := App("ctxdone", SInt, x.term(st, recv, c.Value.Type()))
 		st.add(Gt(r, Zero))
 		x.setResult(st, res, Val{T: r})
+		x.extUsed["iface "+name] = true
+		return true
+	case "io.Writer.Write", "io.WriteCloser.Write", "io.StringWriter.WriteString":
+		w := x.term(st, recv, c.Value.Type())
+		p := x.term(st, args[0], c.Args[0].Type())
+		x.writeModel(st, w, p, res)
 		x.extUsed["iface "+name] = true
 		return true
 	case "error.Error":
@@ -343,4 +404,19 @@ func (x *Exec) heapModel(st *State, site ssa.Instruction, callee *ssa.Function, 
 		st.heap[mk] = Store(st.heapArr(mk, heapSorts[mk]), pq, nv)
 	}
 	return true
+}
+
+// writeModel: assumed contract of Write / WriteString on an io.Writer value w with ghost
+// contents written(w): on success exactly p is appended; on failure some part of it.
+func (x *Exec) writeModel(st *State, w, p *Term, res ssa.Value) {
+	n := x.freshVar("n", SInt)
+	e := x.errResult(st)
+	app := x.freshVar("appended", SStr)
+	x.strFacts(st, app)
+	x.strFacts(st, p)
+	st.add(Ge(n, Zero), Le(n, App("slen", SInt, p)))
+	st.add(Implies(Eq(e, Zero), And(Eq(n, App("slen", SInt, p)), Eq(app, p))))
+	st.add(Le(App("dw", SInt, app), App("dw", SInt, p)))
+	x.bufSet(st, w, x.concat(st, x.bufGet(st, w), app))
+	x.setResult(st, res, Val{Tup: []Val{{T: n}, {T: e}}})
 }
